@@ -256,6 +256,42 @@ pub fn wire_total(ctx: &GenCtx, rng: &mut Rng, run: u64) -> Option<Plan> {
     for len in 0..=80i32 {
         plan.ops.push(Op::Deliver { env: 0, fault: WireFault::RawPk { delta: len - pklen as i32, cseed: rng.next_u64() }, entry: ALL_ENTRIES[len as usize % 3] });
     }
+    // one flipped bit in every byte of the public key, and in the first and last byte of every n-byte
+    // word of the signature (randomizer, every chain value, every path node) of every level
+    for byte in 0..pklen {
+        plan.ops.push(Op::Deliver { env: 0, fault: WireFault::PkBitAt { byte, bit: (byte % 8) as u8 }, entry: ALL_ENTRIES[byte % 3] });
+    }
+    {
+        let mut off = 4usize;
+        for (lv, &(wv, hv)) in params.iter().enumerate() {
+            let p_chains = model::ots_params(n, wv).3;
+            let words_start = off + 8; // q, ots type
+            let mut word = 0usize;
+            // C and y
+            for k in 0..(1 + p_chains) {
+                let wo = words_start + k * n;
+                for (j, b) in [wo, wo + n - 1].iter().enumerate() {
+                    plan.ops.push(Op::Deliver { env: 0, fault: WireFault::SigBitAt { byte: *b, bit: ((k + j) % 8) as u8 }, entry: ALL_ENTRIES[(k + lv) % 3] });
+                }
+                word += 1;
+            }
+            let path_start = words_start + word * n + 4;
+            for k in 0..hv as usize {
+                let wo = path_start + k * n;
+                for (j, b) in [wo, wo + n - 1].iter().enumerate() {
+                    plan.ops.push(Op::Deliver { env: 0, fault: WireFault::SigBitAt { byte: *b, bit: ((k + j) % 8) as u8 }, entry: ALL_ENTRIES[(k + lv) % 3] });
+                }
+            }
+            off = path_start + hv as usize * n;
+            if lv + 1 < params.len() {
+                // the signed child public key: identifier and root bytes
+                for k in (8..24 + n).step_by(3) {
+                    plan.ops.push(Op::Deliver { env: 0, fault: WireFault::SigBitAt { byte: off + k, bit: (k % 8) as u8 }, entry: ALL_ENTRIES[k % 3] });
+                }
+                off += 24 + n;
+            }
+        }
+    }
     // chains of 0..=10 well-formed elements (deeper than any valid signature)
     for count in 0..=10u32 {
         for adjust_pk in [false, true] {
